@@ -267,7 +267,19 @@ def _line_ending_uses(prog, rep):
         rep.violation("C09.R4", "crate", "floor", "crate", "only %d uses of the line ending found on the wrap/fill path (floor 4)" % n)
 
 
+def _as_str(prog, rep):
+    key = "crate::line_ending::LineEnding::as_str"
+    body, arms = models.variant_arms(prog, key)
+    r = Rule(rep, "C09.R6", key, site=body.span)
+    r.check(arms.get("LF") == ("str", "\n") and arms.get("CRLF") == ("str", "\r\n") and len(arms) == 2, "as-str",
+            "LineEnding::as_str maps LF to \"\\n\" and CRLF to \"\\r\\n\"", str(arms),
+            "LineEnding::as_str returns %s; expected LF => \"\\n\", CRLF => \"\\r\\n\"" % {k: describe(v, body) for k, v in arms.items()})
+
+
 def run(prog, rep):
+    guarded(rep, "C09.R6", "crate::line_ending::LineEnding::as_str", lambda: _as_str(prog, rep))
+    from . import optconv
+    optconv.check(prog, rep, 'C09')
     guarded(rep, "C09.R1", "crate", lambda: _use_set(prog, rep))
     guarded(rep, "C09.R2", WSL, lambda: _every_path_pushes(prog, rep))
     guarded(rep, "C09.R3", FSP, lambda: _join(prog, rep))
